@@ -52,6 +52,13 @@ REAL_TESTS = {
 }
 
 
+def same_axis(axis, a, b):
+    """equality of what a test received on one axis; instants compare to the microsecond (+-1 for float epoch carriers)"""
+    if axis != "tinp" or a is None or b is None:
+        return a == b
+    return len(a) == len(b) and all(abs(x - y) <= 1 for x, y in zip(a, b))
+
+
 def wkind(tb, w):
     a, b = w
     if a is None and b is None:
@@ -93,7 +100,7 @@ def direct(module, test, kwargs, tb, mask, sid, masked_input=False, time_tz=None
 
 def expected_received(tb, mask, sid):
     return {"ids": tb.data[sid][mask].tolist(),
-            "tinp": [s for s, m in zip(tb.secs, mask) if m] if tb.with_time else None,
+            "tinp": [P.us(s) for s, m in zip(tb.secs, mask) if m] if tb.with_time else None,
             "zinp": tb.z[mask].tolist() if tb.with_z else None,
             "lat": tb.lat[mask].tolist() if tb.with_pos else None,
             "lon": tb.lon[mask].tolist() if tb.with_pos else None}
@@ -214,7 +221,8 @@ def judge_run(ctx, fe, opts, tb, contexts, res, err, witness_base):
                     recv = None
                     for e in evs:
                         g = received_from_spy(e)
-                        if g["ids"] == exp_recv["ids"] or (g["ids"] is None and g["lon"] == exp_recv["lon"]):
+                        # (the event of THIS context: every input the call was given equals what this context's rows give)
+                        if all(same_axis(a, g[a], exp_recv[a]) for a in ("ids", "tinp", "zinp", "lat", "lon") if g[a] is not None):
                             recv = e
                             break
                     if recv is None and evs:
@@ -230,7 +238,7 @@ def judge_run(ctx, fe, opts, tb, contexts, res, err, witness_base):
                     got = {k: (v if ({"ids": "inp"}.get(k, k) in params) else None) for k, v in got.items()}
                 ctx.count("c05.invocations_observed")
                 for axis in ("ids", "tinp", "zinp", "lat", "lon"):
-                    if got[axis] != exp_recv[axis]:
+                    if not same_axis(axis, got[axis], exp_recv[axis]):
                         ctx.violation(f"C05:{label}:rows-received:{axis}",
                                       {**witness_base, "context": ci, "stream": sid, "test": test,
                                        "window": c["window"], "axis": axis, "expected": exp_recv[axis],
@@ -380,7 +388,13 @@ def run(ctx) -> None:
                         tests.append((m, t, kw))
                     rng.shuffle(tests)
                     sd[s] = tests
-                contexts.append({"window": w, "streams": sd})
+                cdict = {"window": w, "streams": sd}
+                if rng.random() < 0.2:
+                    # a context may carry a region next to its window (regions are documented as not applied yet by the
+                    # stream front ends); the window still selects the rows
+                    cdict["region"] = {"type": "Feature", "geometry": {"type": "Polygon", "coordinates": [[[-180 + ci, -90], [-180 + ci, 90], [180, 90], [180, -90], [-180 + ci, -90]]]}}
+                    ctx.count("c05.contexts_with_region_and_window")
+                contexts.append(cdict)
             variants = fe_variants(ctx, tb, nstreams == 1)
             chosen = rng.sample(variants, min(len(variants), ctx.pick(3, 6)))
             if unsorted:
@@ -404,6 +418,21 @@ def run(ctx) -> None:
                 for w in ((None, None), (tb.secs[100], tb.secs[69900])):
                     run_one(ctx, tb, [{"window": w, "streams": {"v1": big}}], fe, {}, scratch, "long-record")
                     ctx.count("c05.long_record_runs")
+        # ---- fast sampling: instants and window bounds with sub-millisecond parts (kHz loggers, float epoch times in files)
+        for _ in range(ctx.pick(12, 80)):
+            n = rng.choice([5, 8])
+            # (rows and bounds never closer than 0.1 ms: float epoch carriers are only good to a fraction of a microsecond)
+            secs = [P.T0 + 0.001 * k + rng.choice([0.0001, 0.0002, 0.0004, 0.0007]) for k in range(n)]
+            tb = P.Table(n, streams=("v1",), secs=secs, with_pos=False)
+            cuts = sorted(rng.sample([P.T0 + 0.001 * k + f for k in range(n + 1) for f in (0.0, 0.0003, 0.0005, 0.0009)], 2))
+            wins = [(None, cuts[0]), (cuts[0], cuts[1]), (cuts[1], None)]
+            contexts = [{"window": w, "streams": {"v1": [("qartod", "vf_probe_test", {"tag": k_ + 1}),
+                                                         ("qartod", "gross_range_test", {"fail_span": [1001, 1006], "suspect_span": [1002, 1004]})]}}
+                        for k_, w in enumerate(wins)]
+            for fe, opts in rng.sample([("numpy-dict", {}), ("netcdf-file", {}), ("pandas", {}), ("xarray-ds", {}), ("numpy-dict", {"time_carrier": "epoch"}),
+                                        ("netcdf-ds", {})], 3):
+                run_one(ctx, tb, contexts, fe, opts, scratch, "sub-ms")
+                ctx.count("c05.sub_millisecond_runs")
         # ---- histories across runs: two data sets with the same length and the same first / last instant but different
         #      interior instants, run one after the other with the same window
         for _ in range(ctx.pick(25, 200)):
